@@ -1,8 +1,15 @@
 """C19 -- address text conversion round-trips and agrees with the platform parser."""
 from engine import core
 
-INFO = {"outside": "wip", "assumptions": []}
-MANIFEST = {"text": "wip", "note": "wip"}
+INFO = {
+    "outside": 'strings longer than N characters; IPv6 round trip for shapes not listed',
+    "assumptions": ['libc models for the four format strings'],
+}
+MANIFEST = {
+    "text": 'Real ipv4.c/ipv6.c/ip.c with exact models of the four libc format strings: all 2^32 IPv4 addresses round-trip and never write beyond the length told; the IPv6 parser is a function of the text only (two runs from different uninitialised stacks agree) for every string of <=10/16 characters; every such string the reference inet_pton grammar accepts is accepted with the same bits; to_str refuses short buffers; IPv6 round trip per zero-run shape in the thorough tier.',
+    "note": "inet_pton itself cannot be encoded (glibc, no source): agreement is with a reference recogniser that follows glibc's algorithm; it and the printf/sscanf models are differential-tested against glibc by scripts/c19_selftest (oracle validation, not the deciding step).",
+    "technique": 'CBMC on real ipv6.c/ipv4.c with libc format models and a reference inet_pton grammar',
+}
 IP_SOURCES = ["rtrlib/lib/ip.c", "rtrlib/lib/ipv4.c", "rtrlib/lib/ipv6.c", "rtrlib/lib/utils.c", "rtrlib/lib/convert_byte_order.c"]
 IP_STUBS = ["snprintf/sprintf/sscanf/strchr: exact models of the four format strings used by ipv4.c/ipv6.c (checked against glibc "
             "by scripts/c19_selftest)", "reference parser ref_pton6/ref_pton4 = glibc inet_pton algorithm (checked against inet_pton "
